@@ -233,6 +233,14 @@ func runProperty(m *Model, o Options, prop string, pd PropDef, known *KnownFile,
 			},
 			WallS: wall, Violations: nViol,
 		}
+		if o.Extra != "" {
+			if xb, err := os.ReadFile(o.Extra); err == nil {
+				var extra map[string]any
+				if json.Unmarshal(xb, &extra) == nil {
+					ev.Coverage["thorough_extras"] = extra
+				}
+			}
+		}
 		b, _ := json.MarshalIndent(ev, "", " ")
 		if err := os.WriteFile(filepath.Join(o.EvidenceDir, prop+".json"), b, 0o644); err != nil {
 			fmt.Fprintln(os.Stderr, "rosmarlint: cannot write evidence:", err)
